@@ -192,5 +192,6 @@ def run(tier, seed, replay=None):
     res.sample({"A": bl[7][:200], "ref_read": (outs[7] or "")[:160] if len(outs) > 7 else ""})
     res.sample({"B": wpref[7][:200], "lib_read": ro[7][:160] if len(ro) > 7 else ""})
     res.traces = len(idxs) + len(rmeta)
-    shutil.rmtree(base, ignore_errors=True)
+    if not os.environ.get("VERIF_KEEP"):
+        shutil.rmtree(base, ignore_errors=True)
     return res.finish()
